@@ -162,7 +162,19 @@ func VH_C20_Inscribe() {
 		vassume(c >= 0x20 && c < 0x7f)
 	}
 	dl := vinscLen("datalen")
-	data := vnondetBytes("data", dl, dl)
+	var data []byte
+	if dl <= 256 {
+		data = vnondetBytes("data", dl, dl)
+	} else {
+		// long payloads: symbolic first and last two bytes around a concrete filler (a parser that loses
+		// the push boundary then walks concrete single-byte opcodes instead of forking on every byte)
+		data = make([]byte, dl)
+		for i := range data {
+			data[i] = bscript.Op1
+		}
+		copy(data, vnondetBytes("data-head", 2, 2))
+		copy(data[dl-2:], vnondetBytes("data-tail", 2, 2))
+	}
 	tx := bt.NewTx()
 	err := tx.Inscribe(&bscript.InscriptionArgs{LockingScriptPrefix: lock, Data: data, ContentType: string(ct)})
 	vassert(err == nil && len(tx.Outputs) == 1, "C20: Inscribe adds one output")
